@@ -30,6 +30,7 @@ import (
 	"go/parser"
 	"go/token"
 	"go/types"
+	"hash/fnv"
 	"os"
 	"path/filepath"
 	"runtime/debug"
@@ -129,7 +130,7 @@ func dumpFiles(d *c02ir.Dumper, files []string, modes []string) {
 	fset := token.NewFileSet()
 	imp := importer.ForCompiler(fset, "source", nil)
 	var sps []*srcPkg
-	for i, file := range files {
+	for _, file := range files {
 		sp := &srcPkg{file: file}
 		sps = append(sps, sp)
 		f, err := parser.ParseFile(fset, file, nil, parser.ParseComments|parser.SkipObjectResolution)
@@ -140,7 +141,11 @@ func dumpFiles(d *c02ir.Dumper, files []string, modes []string) {
 		sp.files = []*ast.File{f}
 		sp.info = newInfo()
 		base := strings.TrimSuffix(filepath.Base(file), ".go")
-		sp.tpkg = types.NewPackage(fmt.Sprintf("c02/f%d_%s/%s", i, base, f.Name.Name), f.Name.Name)
+		// the package path must not depend on the position of the file in the argument list
+		// (a replay re-dumps one file alone and looks functions up by name)
+		h := fnv.New32a()
+		h.Write([]byte(file))
+		sp.tpkg = types.NewPackage(fmt.Sprintf("c02/%s_%08x/%s", base, h.Sum32(), f.Name.Name), f.Name.Name)
 		tc := &types.Config{Importer: imp}
 		if err := types.NewChecker(tc, fset, sp.tpkg, sp.info).Files(sp.files); err != nil {
 			sp.err = "types: " + err.Error()
